@@ -355,6 +355,25 @@ pub struct FlatB<'a> {
     pub rest: FlatInnerB<'a>,
 }
 
+// variants whose payload is written as null: the DOM route must not take `{"V":null}` for the unit form
+#[derive(Serialize, Deserialize, PartialEq, Debug, Clone)]
+pub enum NullPay {
+    N(Option<i32>),
+    U(()),
+    S(UnitS),
+    T(Option<Option<bool>>),
+    Z,
+    W(Newtype),
+    R { a: Option<u8> },
+}
+
+#[derive(Serialize, Deserialize, PartialEq, Debug, Clone)]
+pub struct HoldsNullPay {
+    pub e: NullPay,
+    pub v: Vec<NullPay>,
+    pub o: Option<NullPay>,
+}
+
 pub fn plain_shape() -> Shape {
     Shape::Struct(vec![("a", Shape::Int { signed: true, bits: 32 }, false), ("b", Shape::Str, false), ("c", Shape::Opt(Box::new(Shape::Bool)), true)])
 }
